@@ -66,6 +66,16 @@ def gen(seed, tier):
             payloads.append({"id": "tcaller", "flavour": "trio", "via": "queued", "steps": [["sleep", rng.choice([0.1, 0.4])], ["execute", "xs"], ["sleep", 0.1], ["return", "none"]]})
         else:
             payloads.append({"id": "tcaller", "flavour": "threading", "via": "queued", "steps": [["sleep", rng.choice([0.1, 0.4])], ["private-trio", [["execute", "xs"], ["sleep", 0.3]]], ["return", "none"]]})
+    if rng.random() < 0.12:
+        # population size is a knob too: a coroutine payload (or the accept loop, through services) hands the
+        # runtime a flood of thread payloads that all block - the coroutine side must keep ticking
+        nflood = rng.choice([24, 40, 70])
+        via = rng.choice(["adopt", "service"])
+        for i in range(nflood):
+            payloads.append({"id": "fl%d" % i, "flavour": "threading", "via": via, "steps": [["block"]]})
+        op = "adopt" if via == "adopt" else "create-service"
+        payloads.append({"id": "flooder", "flavour": rng.choice(["asyncio", "trio"]), "via": "queued", "steps": [["sleep", 0.3]] + [[op, "fl%d" % i] for i in range(nflood)] + [["return", "none"]]})
+        knobs["step_cap"] = 600000
     dscript += [["sleep", rng.choice([2.0, 3.0, 6.0])], ["mark", "before-shutdown"], ["shutdown"]]
     knobs["horizon"] = 60.0
     rng.shuffle(payloads)
